@@ -223,12 +223,35 @@ def run(ctx):
                          {"model": model, "lnk_min": lo, "lnk_max": hi})
         import shutil
         shutil.rmtree(tmpdir, ignore_errors=True)
+    # ---- the Lean model of the table-driven models (Hmf.Table: lnt, _check_low_k) against the real FromArray / FromFile
+    import tablecorr
+    tstats, tbad = tablecorr.run_corr(150 if quick else 3000)
+    if tstats["caller_arrays_modified"]:
+        viol("table/caller-arrays", f"FromArray.lnt modified the caller's k/T/request arrays in {tstats['caller_arrays_modified']} of {tstats['cases']} random table/request cases")
+    if tbad:
+        b = tablecorr.minimise(tbad[0])
+        out["broken"].append({"kind": "correspondence", "what": f"Lean model Hmf.Table (lnt/_check_low_k) differs from the real {b['model']}.lnt on {len(tbad)} of {tstats['cases']} random table/request cases", "detail": {k_: b[k_] for k_ in ("model", "table_kind", "request", "lnk", "lnT", "req", "impl", "lean", "start")}})
+        # does the disagreeing case violate the property on the real code?  (nodes reproduced when the request starts inside the table;
+        # finite values; a value beyond the patched rows does not depend on where the request starts)
+        lk_, lT_, rq_ = np.array(b["lnk"]), np.array(b["lnT"]), np.array(b["req"])
+        impl_ = np.array(b["impl"], float)
+        if impl_.shape == rq_.shape:
+            if not np.all(np.isfinite(impl_)):
+                viol("table/not-finite", f"{b['model']}.lnt returns non-finite values for a finite table: {impl_.tolist()}", {"lnk": b["lnk"], "lnT": b["lnT"], "req": b["req"]})
+            if rq_[0] >= lk_[0]:
+                for x_, v_ in zip(rq_, impl_):
+                    j_ = np.where(lk_ == x_)[0]
+                    if len(j_) and abs(v_ - lT_[j_[0]]) > 1e-9 * max(1.0, abs(lT_[j_[0]])):
+                        viol("table/nodes/model-disagreement-case", f"{b['model']}: the request starts inside the table (first requested ln k = {rq_[0]:.6g} >= first tabulated {lk_[0]:.6g}) but the tabulated value at ln k = {x_:.6g} is not reproduced: {v_:.8g} vs table {lT_[j_[0]]:.8g}",
+                             {"lnk": b["lnk"], "lnT": b["lnT"], "req": b["req"]})
+                        break
     out["coverage"] = {
-        "evaluations": len(reqs) + nsweep + ntab + nrange, "programs": len(exp), "disagreements_checked": len(exp), "traces_validated_against_impl": len(exp),
-        "distinct_nontrivial": len(exp) + nsweep,
+        "evaluations": len(reqs) + nsweep + ntab + nrange, "programs": len(exp) + tstats["cases"], "disagreements_checked": len(exp) + tstats["cases"], "traces_validated_against_impl": len(exp) + tstats["cases"],
+        "distinct_nontrivial": len(exp) + nsweep + tstats["cases"],
         "rule": "random cosmologies (Om0, Ob0/Om0<=0.5, H0, Tcmb0) and +-20% overrides of one model parameter; k log-uniform in [1e-8,1e5]; each analytic model: real vs generated term (and vs spec term for BBKS/BondEfs), array vs element-by-element vs shuffled vs descending, 400-point sweeps; table models with inside/outside ranges and call sequences; 8 one- and two-sided k ranges for the normalisation constant",
         "gen_disagreements": nbad["gen"], "spec_disagreements": nbad["spec"], "samples": [{"model": e[0], "case": e[2], "impl": e[1][:2].tolist()} for e in exp[:2]],
         "search": "sweeps and sequences on the real models",
+        "table_model_correspondence": dict(tstats, disagreements=len(tbad)),
         "EH_NoBAO_q_eff_hypothesis": {"evaluated": qeff_n, "min_q_eff": (qeff_min if qeff_n else None)},
     }
     if qeff_n and not qeff_min >= 0:
